@@ -172,9 +172,11 @@ class Integrate:
         integ_array = integ_array_func(nnodes)
         knots = curve.knotvector.knots
         integrals = []
-        for start, end in zip(knots[:-1], knots[1:]):
+        # Each span is sampled on its own piece: a node at the end of a span
+        # must not take the value of the next span (discontinuous curves)
+        for piece, start, end in zip(curve.split(), knots[:-1], knots[1:]):
             nodes = tuple(start + (end - start) * node for node in nodes_0to1)
-            curve_vals = tuple(curve.eval(node) for node in nodes)
+            curve_vals = tuple(piece.eval(node) for node in nodes)
             function_vals = tuple(function(node) for node in nodes)
             new_integral = sum(
                 map(np.prod, zip(integ_array, function_vals, curve_vals))
@@ -276,9 +278,10 @@ class Integrate:
         integ_array = integ_array_func(nnodes)
         knots = curve.knotvector.knots
         integrals = []
-        for start, end in zip(knots[:-1], knots[1:]):
+        # Each span is sampled on its own piece (see Integrate.scalar)
+        for piece, start, end in zip(curve.split(), knots[:-1], knots[1:]):
             nodes = tuple(start + (end - start) * node for node in nodes_0to1)
-            curve_vals = tuple(curve.eval(node) for node in nodes)
+            curve_vals = tuple(piece.eval(node) for node in nodes)
             abscurve_vals = tuple(np.sqrt(float(val @ val)) for val in curve_vals)
             function_vals = tuple(function(node) for node in nodes)
             new_integral = sum(
